@@ -93,13 +93,15 @@ def check_pinned(eng, pc, pins, extra=()):
     extra = list(extra); pc = list(pc) + extra
     sat, m = eng.check(pc + list(pins))
     if sat or not pins: return sat, m
+    sat0, m0 = eng.check(pc)
+    if not sat0:
+        if not extra: eng.no_model = getattr(eng, 'no_model', 0) + 1   # a completed path without a model: surfaced as inconclusive by Summary.absorb_engine
+        return sat0, m0
     keep = []
     for c in pins:
         ok, _ = eng.check(pc + keep + [c])
         if ok: keep.append(c)
-    sat, m = eng.check(pc + keep)
-    if not sat and not extra: eng.no_model = getattr(eng, 'no_model', 0) + 1          # a completed path without a model: surfaced as inconclusive by Summary.absorb_engine
-    return sat, m
+    return eng.check(pc + keep)
 
 def model_tag(lz, model, prefer='Null'):
     """the tag an unmaterialised lazy part has under the model (falls back to the pin)"""
